@@ -275,6 +275,20 @@ func c05ChildMain() {
 		switch c.Cmd {
 		case "quit":
 			return
+		case "rebase":
+			// the census baseline: the goroutine count once it has been stable for 150 ms (at most 3 s)
+			deadline := time.Now().Add(3 * time.Second)
+			last, same := runtime.NumGoroutine(), 0
+			for same < 15 && time.Now().Before(deadline) {
+				time.Sleep(10 * time.Millisecond)
+				if n := runtime.NumGoroutine(); n == last {
+					same++
+				} else {
+					last, same = n, 0
+				}
+			}
+			baseline = last
+			emit(c05Ans{ID: c.ID, Goroutines: last, Baseline: baseline})
 		case "census":
 			n := c05Settle(baseline, 3*time.Second)
 			emit(c05Ans{ID: c.ID, Goroutines: n, Baseline: baseline})
